@@ -23,7 +23,7 @@ post := V=<ids,> C= O= VB= AB= LID= AID= NL=<id:orig:app:amt:isBorrow:debt:targe
 APP has two more flags (english2, lendAuc1), env has AP2=<penalty:bonus|->, borrows 4 more fields (ltv, ltvFirst, ltvSecond, epen),
 pre/post LAID= (lend auction id) RB= (x/lend reserve account) AR= (app reserve funds) LQ= (x/liquidationsV2 account); NL has a 12th
 field (IsInternalKeeper), NA a 6th (AuctionType).
-Monitors (on REAL pre/post): safe_never_seized, slice_bounds, seized_within_bound, seized_within_two_sweeps (D9: the
+Monitors (on REAL pre/post): safe_never_seized, slice_bounds (slice_bounds_wrap outside the int range, D41), seized_within_bound, seized_within_two_sweeps (D9: the
 property's literal bound, reported under this name only while model and code have agreed on every line of the sequence;
 after a divergence it is `seized_late_after_divergence`), gen1_app3_offset_collision (generation 1, vault app id =
 lendtypes.AppID: both liveness monitors are reported under this name), seize_exact_collateral, one_auction, store_order,
@@ -442,9 +442,13 @@ def handle (st : St) (seq : String) (f : List String) : St × List String :=
     let m := sliceBoundsI (int! l) (int! o) (int! b)
     let d1 := if m != (int! s1, int! e1) then [s!"DIFF\t{seq}\tslice v1 model={m.1},{m.2} impl={s1},{e1}"] else []
     let d2 := if m != (int! s2, int! e2) then [s!"DIFF\t{seq}\tslice v2 model={m.1},{m.2} impl={s2},{e2}"] else []
-    -- law on the REAL result: for a non-negative length, 0 ≤ start ≤ end ≤ len
+    -- law on the REAL result: for a non-negative length, 0 ≤ start ≤ end ≤ len (C09.slice_in_bounds); where Go's
+    -- `offset + batchSize` leaves the int range the law is false of the code (C09.slice_in_bounds_wrap_counterexample,
+    -- finding D41): reported under its own name `slice_bounds_wrap`
     let ok (s e : Int) : Bool := int! l < 0 || (0 ≤ s && s ≤ e && e ≤ int! l)
-    let mon := if ok (int! s1) (int! e1) && ok (int! s2) (int! e2) then [] else [s!"MON\t{seq}\tslice_bounds"]
+    let inDom : Bool := int! b < 9223372036854775808 && int! o + int! b < 9223372036854775808
+    let name := if inDom then "slice_bounds" else "slice_bounds_wrap"
+    let mon := if ok (int! s1) (int! e1) && ok (int! s2) (int! e2) then [] else [s!"MON\t{seq}\t{name}"]
     (st, d1 ++ d2 ++ mon)
   | ["liq.cr.single", p, ai, to, res, _] =>
     match st.env.product? (nat! p) with
